@@ -253,7 +253,11 @@ def register_dataclass_type_with_jax_tree_util(data_class):
         constructable from keyword arguments corresponding to the members exposed
         in instance.__dict__.
     """
-    flatten = lambda d: jax.util.unzip2(sorted(d.__dict__.items()))[::-1]
+    def flatten(d):
+        # (values, keys) of the instance attributes, sorted by name (jax.util.unzip2 is gone in current JAX)
+        items = sorted(d.__dict__.items())
+        return tuple(v for _, v in items), tuple(k for k, _ in items)
+
     unflatten = lambda keys, values: data_class(**dict(zip(keys, values)))
     try:
         jax.tree_util.register_pytree_node(
